@@ -164,6 +164,7 @@ class Content:
         self.v_extra = list(v_extra)    # extra ~V lines after VERS and WRAP
         self.vers_text = version        # text of the VERS value ('2.0', '2.00', ...)
         self.last_layout = None
+        self.flags = []                 # rare input classes used by random_content(extended=True)
 
     @property
     def null_number(self):
@@ -230,13 +231,16 @@ def _retypable(s):
     return t.lower() in ('yes', 'no')
 
 
-def rand_mnem(rng, used, pool=None):
+def rand_mnem(rng, used, pool=None, digit_first_p=0.0):
+    """digit_first_p > 0: that share of the invented mnemonics starts with a digit (2DEN, 4CAL): legal, never re-typable here."""
     for _ in range(200):
         r = rng.random()
         if pool and r < 0.6:
             m = rng.choice(pool)
         else:
             m = rng.choice(_LETTERS) + ''.join(rng.choice(_MN_TAIL) for _ in range(rng.choice([0, 1, 2, 3, 3, 4, 5, 7, 11])))
+            if digit_first_p and rng.random() < digit_first_p:
+                m = rng.choice('0123456789') + m
             if rng.random() < 0.08:
                 m += rng.choice(['[1]', '(2)', '/A', '#1', '_'])
             if rng.random() < 0.1:
@@ -279,8 +283,29 @@ def rand_decimal(rng, big=False):
     return m, d
 
 
-def rand_val(rng, text_p=0.35):
+def sci_val(m, e, text):
+    """A float header value m * 10**e (e any sign) with the given text."""
+    return Val('float', float(Fraction(m) * Fraction(10) ** e), text)
+
+
+def rand_val(rng, text_p=0.35, extended=False):
+    """extended (used by C09): also floats written without a fraction digit ('5.', '-12.'), exponent forms without a decimal
+    point ('1E3', '25e-4', '-7E+02'), and floats of up to 17 significant digits."""
     r = rng.random()
+    if extended and text_p + 0.2 <= r < text_p + 0.42 and rng.random() < 0.2:
+        k = rng.random()
+        if k < 0.35:
+            m = rng.randrange(-999, 10 ** rng.choice([1, 3, 6]))
+            return Val('float', float(m), '%d.' % m)
+        if k < 0.7:
+            m, e = rng.randrange(-99, 1000), rng.choice([-12, -4, -2, -1, 0, 1, 2, 3, 9, 15])
+            es = ('%+d' % e if rng.random() < 0.5 else '%d' % e)
+            if rng.random() < 0.3:
+                es = es[0] + '0' + es[1:] if es[0] in '+-' else '0' + es
+            return sci_val(m, e, '%d%s%s' % (m, rng.choice('Ee'), es))
+        m, d = rand_decimal(rng, big=True)
+        d = max(d, 1)
+        return Val.float_(m, d, dec_text(m, d))
     if r < text_p:
         s = rand_text(rng, allow_colon=True, allow_empty=False)
         return Val.text_(s)
@@ -326,15 +351,30 @@ def rand_null(rng, default_p=0.6):
 
 
 def random_content(rng, min_curves=1, max_curves=12, min_frames=1, max_frames=60, version=None, null=None,
-                   bad_tokens=True, hostile=False, datetime_curves=False, null_default_p=0.6, params=None, other=None):
+                   bad_tokens=True, hostile=False, datetime_curves=False, null_default_p=0.6, params=None, other=None,
+                   extended=False):
     """A random well-formed content.  hostile: a few mnemonics / units / descriptions that Python would re-type
-    ('NO', '12', '1E3') in ~W/~P lines and curve units/descriptions.  datetime_curves: add DATE.D / TIME.HHMMSS curves."""
+    ('NO', '12', '1E3') in ~W/~P lines and curve units/descriptions.  datetime_curves: add DATE.D / TIME.HHMMSS curves.
+    extended (used by C09; off for the other users so that their inputs stay as they were): rare contents with 20..150 curves
+    or 1000..4097 frames (beyond max_curves / max_frames), more header number spellings, data values of extreme magnitude
+    (1e-320 .. 1e267), mnemonics starting with a digit, ~W lines in any order (NULL anywhere), and at most one unparseable token
+    in the index column (content.flags lists what was used)."""
     version = version or rng.choice(['1.2', '2.0', '2.0'])
     nullv = null if null is not None else rand_null(rng, null_default_p)
     nc = rng.choice([1, 2, 3, 4, 5, 6, 8, 12, rng.randint(min_curves, max_curves)])
     nc = max(min_curves, min(max_curves, nc))
     nf = rng.choice([1, 2, 3, 5, 8, 13, rng.randint(min_frames, max_frames), rng.randint(min_frames, max_frames)])
     nf = max(min_frames, min(max_frames, nf))
+    flags = []
+    if extended:
+        r = rng.random()
+        if r < 0.02:
+            nc, nf = rng.choice([20, 33, 64, 100, 150]), rng.choice([1, 2, 3, 7, 12])
+            flags.append('many-curves')
+        elif r < 0.032:
+            nc, nf = rng.choice([1, 2, 3]), rng.choice([1000, 1024, 1025, 2500, 4097])
+            flags.append('long-log')
+    mn_digit_p = 0.06 if extended else 0.0
     # ---- curves
     used = set(['DATE', 'TIME'])
     idx_mn = rng.choice(['DEPT', 'DEPTH', 'TIME', 'ETIM', 'DEPT', 'MD', 'INDEX'])
@@ -346,7 +386,7 @@ def random_content(rng, min_curves=1, max_curves=12, min_frames=1, max_frames=60
         if c == 0:
             mn, un = idx_mn, idx_unit
         else:
-            mn = rand_mnem(rng, used, CURVE_NAMES)
+            mn = rand_mnem(rng, used, CURVE_NAMES if nc <= 20 else None, mn_digit_p)
             un = rng.choice(UNITS) if rng.random() < 0.75 else ''
         r = rng.random()
         if r < 0.55:
@@ -354,7 +394,7 @@ def random_content(rng, min_curves=1, max_curves=12, min_frames=1, max_frames=60
         elif r < 0.8:       # API codes, a classic text value
             val = Val.text_('%02d %03d %02d %02d' % (rng.randrange(100), rng.randrange(1000), rng.randrange(100), rng.randrange(100)))
         else:
-            val = rand_val(rng, 0.3)
+            val = rand_val(rng, 0.3, extended)
         desc = rand_text(rng, allow_colon=False)
         if version == '1.2' and rng.random() < 0.5 and desc:
             desc = '%d  %s' % (c + 1, desc)
@@ -405,9 +445,24 @@ def random_content(rng, min_curves=1, max_curves=12, min_frames=1, max_frames=60
                         row.append(Cell.num(int(fr_ * 10 ** dd), dd))
                 elif r < 0.13:
                     row.append(Cell.num(-99925, 2))     # the conventional absent value whatever NULL says
+                elif extended and r < 0.15:
+                    # extreme magnitudes: far beyond float32, down into the denormals and below (rounds to zero)
+                    m, _ = rand_decimal(rng, big=True)
+                    d = rng.choice([-250, -100, -30, -20, 20, 30, 45, 100, 300, 320, 340])
+                    if d < 0:
+                        m, d = m * 10 ** -d, 0
+                    row.append(Cell.num(m, d))
+                    if 'extreme-magnitude' not in flags:
+                        flags.append('extreme-magnitude')
                 else:
                     row.append(Cell.num(*rand_decimal(rng, big=rng.random() < 0.25)))
         frames.append(row)
+    if extended and bad_tokens and rng.random() < 0.04:
+        # one unparseable token in the index column: it reads as the null value, which must not collide with another index value
+        nn = Fraction(nullv.text) if nullv.kind in ('int', 'float') else None
+        if nn is not None and all(Fraction(fr[0].m, 10 ** fr[0].d) != nn for fr in frames):
+            frames[rng.randrange(nf)][0] = Cell.bad(rng.choice(BAD_TOKENS))
+            flags.append('bad-index-token')
     # ---- well
     wused = set()
     well = []
@@ -431,10 +486,11 @@ def random_content(rng, min_curves=1, max_curves=12, min_frames=1, max_frames=60
             data = rand_text(rng, allow_colon=False)
             well.append(Line(mn, '', Val.text_(lab) if lab else Val.empty(), data))
         else:
-            v = rand_val(rng, 0.7) if mn not in ('DATE',) else Val.text_(rng.choice(['13-DEC-86', '1986-12-13', '12:30:05 13-DEC-86', '25 Dec 1988']))
+            v = rand_val(rng, 0.7, extended) if mn not in ('DATE',) else Val.text_(rng.choice(['13-DEC-86', '1986-12-13', '12:30:05 13-DEC-86', '25 Dec 1988']))
             well.append(Line(mn, '', v, rng.choice([labels[mn], labels[mn].title(), ''])))
     for _ in range(rng.choice([0, 0, 1, 3])):
-        well.append(Line(rand_mnem(rng, wused), rng.choice(UNITS) if rng.random() < 0.4 else '', rand_val(rng), rand_text(rng, False)))
+        well.append(Line(rand_mnem(rng, wused, None, mn_digit_p), rng.choice(UNITS) if rng.random() < 0.4 else '', rand_val(rng, 0.35, extended),
+                         rand_text(rng, False)))
     # ---- parameters
     if params is None:
         params = rng.random() < 0.75
@@ -443,8 +499,8 @@ def random_content(rng, min_curves=1, max_curves=12, min_frames=1, max_frames=60
         pused = set()
         plist = []
         for _ in range(rng.choice([0, 1, 2, 3, 5, 8, 14])):
-            plist.append(Line(rand_mnem(rng, pused, ['BHT', 'BS', 'MUD', 'RUN', 'RM', 'RMF', 'DFD', 'DFV', 'MATR', 'MDEN', 'FD', 'EKB', 'EGL', 'TDL']),
-                              rng.choice(UNITS) if rng.random() < 0.55 else '', rand_val(rng), rand_text(rng, False)))
+            plist.append(Line(rand_mnem(rng, pused, ['BHT', 'BS', 'MUD', 'RUN', 'RM', 'RMF', 'DFD', 'DFV', 'MATR', 'MDEN', 'FD', 'EKB', 'EGL', 'TDL'], mn_digit_p),
+                              rng.choice(UNITS) if rng.random() < 0.55 else '', rand_val(rng, 0.35, extended), rand_text(rng, False)))
     if hostile:
         for lst, usedset in ((well, wused), (plist, None)):
             if not lst:
@@ -478,8 +534,13 @@ def random_content(rng, min_curves=1, max_curves=12, min_frames=1, max_frames=60
     v_extra = []
     if rng.random() < 0.15:
         v_extra.append(Line('PROD', '', Val.text_('ACME logging'), 'LAS Producer'))
+    if extended and rng.random() < 0.15:
+        # the standard fixes no order inside ~W: STRT / STOP / STEP / NULL anywhere among the other lines
+        rng.shuffle(well)
+        flags.append('well-shuffled')
     content = Content(version, nullv, well, curves, plist, olist, frames, ''.join(order), v_extra)
     content.vers_text = version + rng.choice(['', '', '', '0', '000'])
+    content.flags = flags
     return content
 
 
@@ -531,9 +592,10 @@ def minimal_header(null='-999.25', wrap=False, version='2.0'):
 class Layout:
     """How a content is written.  Every per-line decision is drawn from random.Random(seed) inside render()."""
     FIELDS = ('wrap', 'eol', 'sep', 'seed', 'comment_p', 'blank_p', 'pad_max', 'title_style', 'num_style', 'final_eol',
-              'a_heading', 'lead_noise', 'wrap_text', 'col_width')
+              'a_heading', 'lead_noise', 'wrap_text', 'col_width', 'data_lead')
 
     def __init__(self, **kw):
+        kw.setdefault('data_lead', 'space')     # 'space': data lines start with 0..3 blanks; 'any': blanks and/or tabs
         for k in self.FIELDS:
             setattr(self, k, kw[k])
 
@@ -541,10 +603,11 @@ class Layout:
         return {k: getattr(self, k) for k in self.FIELDS}
 
 
-def random_layout(rng, wrap=None, noise=None):
+def random_layout(rng, wrap=None, noise=None, extended=False):
+    """extended (used by C09): data lines may also start with tabs when the columns are tab / mixed separated."""
     quiet = rng.random() < 0.15 if noise is None else not noise
     wrap = (rng.random() < 0.5) if wrap is None else wrap
-    return Layout(
+    lay = Layout(
         wrap=wrap, eol=rng.choice(['\n', '\n', '\r\n']), sep=rng.choice(['space', 'space', 'tab', 'mixed', 'column']),
         seed=rng.getrandbits(48), comment_p=0.0 if quiet else rng.choice([0.0, 0.05, 0.15, 0.4]),
         blank_p=0.0 if quiet else rng.choice([0.0, 0.05, 0.15, 0.4]),
@@ -555,6 +618,9 @@ def random_layout(rng, wrap=None, noise=None):
         lead_noise=(not quiet) and rng.random() < 0.4,
         wrap_text=rng.choice(['YES', 'YES', 'Yes', 'yes'] if wrap else ['NO', 'NO', 'No', 'no']),
         col_width=rng.choice([8, 10, 12, 16] * 8 + [700, 3000]))
+    if extended and lay.sep in ('tab', 'mixed') and rng.random() < 0.5:
+        lay.data_lead = 'any'
+    return lay
 
 
 def plain_layout(wrap=False, eol='\n', seed=0):
@@ -662,6 +728,8 @@ def render(content, layout):
         if L.sep == 'column':
             return ''.join(t.rjust(L.col_width) if len(t) < L.col_width else ' ' + t for t in tokens)
         s = ' ' * r.choice([0, 1, 1, 3]) if first else ''
+        if first and L.data_lead == 'any':
+            s = r.choice(['\t', '\t', ' \t', '\t ', '\t\t', ''])
         for i, t in enumerate(tokens):
             if i:
                 if L.sep == 'space':
@@ -693,11 +761,11 @@ def render(content, layout):
     return text
 
 
-def renderings(rng, content, k=4):
+def renderings(rng, content, k=4, extended=False):
     """k layouts of the same content; the first two are forced unwrapped / wrapped."""
     res = []
     for i in range(k):
-        lay = random_layout(rng, wrap=(i == 1) if i < 2 else None)
+        lay = random_layout(rng, wrap=(i == 1) if i < 2 else None, extended=extended)
         res.append((render(content, lay), lay))
     return res
 
